@@ -1,4 +1,5 @@
 import Librfn.Model.MessageqConc
+import Librfn.Gen.Skeleton
 import Librfn.Lemmas.Messageq
 /-!
 # C04 — the message queue is safe for many concurrent senders and one receiver
@@ -940,5 +941,33 @@ example : (run (init 2 4 3) [.sender 0 false 7, .sender 0 false 7, .sender 0 fal
 /-- a failing fetch_sub exists: depth 1, sender 0 holds the only buffer, sender 1 tries to claim -/
 example : (step (run (init 1 4 2) [.sender 0 false 0, .sender 0 false 0, .sender 0 false 0]) (.sender 1 false 0)).senders[1]?
     = some .failed := by decide
+
+/-! ### Tie S: the model's atomic-operation skeleton is the one extracted from the current source
+
+`Gen.Skeleton.messageq` is regenerated from `messageq.c` / `messageq.h` by `tools/skeleton.py` on every run.  These
+obligations fail when a memory order is weakened, a counter or the flag word stops being `_Atomic`, an atomic call is
+replaced by a plain access or split into a load and a store, or the order / branch structure of the accesses changes. -/
+
+/-- access sites (kind, object, memory order, branch context) of every function of messageq.c and of
+    `messageq_empty`, in order, and the declared types of `messageq_t`'s fields, equal the table the model was
+    written against -/
+theorem skeleton_matches_messageq : Librfn.Gen.Skeleton.messageq = Librfn.Model.MessageqConc.skeleton := by decide
+
+/-- every atomic operation of the message queue is `seq_cst` (the interleaving semantics of `MqInv` rests on it) -/
+theorem mq_ord_all_seqcst : Librfn.Gen.Skeleton.messageq.allSeqCst = true := by decide
+
+/-- the functions of a unit that touch object `obj` -/
+def touching (u : Librfn.Skeleton.CUnit) (obj : String) : List String :=
+  (u.funcs.filter fun f => f.sites.any fun s => s.obj == obj).map (·.name)
+
+/-- `num_free`, `sendp`, `full_flags` are declared `_Atomic` and only touched by atomic operations; `receivep` is a
+    plain field touched only by the receiver's functions (`messageq_receive`, `messageq_empty`) -/
+theorem mq_fields_atomic :
+    Librfn.Gen.Skeleton.messageq.fieldAtomic "messageq_t" "num_free" = true ∧
+    Librfn.Gen.Skeleton.messageq.fieldAtomic "messageq_t" "sendp" = true ∧
+    Librfn.Gen.Skeleton.messageq.fieldAtomic "messageq_t" "full_flags" = true ∧
+    Librfn.Gen.Skeleton.messageq.onlyAtomicAccess ["mq->num_free", "mq->sendp", "mq->full_flags"] = true ∧
+    Librfn.Gen.Skeleton.messageq.fieldAtomic "messageq_t" "receivep" = false ∧
+    touching Librfn.Gen.Skeleton.messageq "mq->receivep" = ["messageq_receive", "messageq_empty"] := by decide
 
 end Librfn.C04
